@@ -42,6 +42,9 @@ structure Cfg where
   /-- reader appends labels that follow the last insn of a function at `endfunc`
       (false today: "endfunc should have no labels") -/
   endfuncLabels : Bool
+  /-- reader takes a second lref label numbered 0 for the writer's "no label" (`i <= 0` instead of
+      `i < 0`; false in the source as it is) -/
+  lrefZeroIsNone : Bool
   /-- CURR_BIN_VERSION -/
   version : Nat
 deriving Repr, DecidableEq
